@@ -66,6 +66,8 @@ type FnExec struct {
 	tuples   map[ssa.Value][]Term
 	ptrs     map[ssa.Value]*Ptr
 	closures map[ssa.Value]*ssa.MakeClosure
+	qbind    []string // binders of the spec quantifiers being evaluated (innermost last) and their type guards
+	qguard   []Term
 	cellIDs  map[*ssa.Alloc]int
 	nonNil   map[string]bool
 	nepoch   int
@@ -607,6 +609,11 @@ func (fx *FnExec) enterLoop(st *State, li *loopInfo) {
 	for _, a := range li.cells {
 		if v, ok := st.cells[a]; ok {
 			fx.assumeValue(st, v, a.Type().(*types.Pointer).Elem())
+			if a.Comment == "rangeindex" {
+				// the compiler's own index of a range-over-slice loop: starts at -1, is only ever incremented, and a
+				// value other than -1 has passed the "index < len" test of an earlier iteration (len <= 2^48)
+				fx.sc.Assume(And(App(">=", SBool, v, IntLit(-1)), App("<", SBool, v, Term{"281474976710656", SInt})))
+			}
 		}
 	}
 	for _, it := range li.iters {
